@@ -431,7 +431,8 @@ PROPERTIES["C07"] = dict(
                 "manifest chunk all symbolic), the store is an arbitrary byte string.  z3 decides for ALL such assets and stores that write_cai "
                 "succeeds and read_cai on the written bytes returns exactly the store (read_cai refuses more than one caBX, so writing replaces), "
                 "and that remove_cai_store_from_stream succeeds, leaves no manifest and an asset the scanner still accepts."),
-    level_note=("PNG only.  Assets of 8 + 50 (quick) / 62 (thorough) bytes = up to 4 / 5 chunks; stores up to 3 / 4 bytes.  The second write of a "
+    level_note=("PNG only.  Assets of 8 + 50 (quick) / 62 (thorough) bytes = up to 4 / 5 chunks; stores up to 3 / 4 bytes, and stores up to 16 / 40 bytes "
+                "with arbitrary content on a two-chunk asset.  The second write of a "
                 "write/write sequence is covered because the input may already carry a manifest chunk anywhere after IHDR."),
     scope=_PNG_SCOPE, outside=_PNG_OUT, assumptions=_PNG_ASSUME, harnesses=[],
     smt=dict(module="props_c07", K=6, N=24, timeout_ms=1500000),
@@ -457,7 +458,8 @@ PROPERTIES["C09"] = dict(
                 "to the original without its old manifest chunk -- every other chunk keeps its bytes and order.  Thorough: "
                 "remove(write(x, s)) == remove(x) executed end to end."),
     level_note=("PNG only (no absolute offsets exist in PNG, so the offset clause has no counterpart here).  Assets of 8 + 42 (quick) / 52 (thorough) bytes "
-                "= up to 3 / 4 chunks; stores up to 3 bytes; the embed query is split by the position of the existing manifest chunk (exhaustive cases)."),
+                "= up to 3 / 4 chunks for the byte-exact embed queries (split by the position of the existing manifest chunk, exhaustive cases); 8 + 50 / 54 bytes "
+                "= 4 chunks for the removal query and the length-only embed query; stores up to 3 bytes; the two-run query remove(write(x)) (thorough) uses 3 chunks."),
     scope=_PNG_SCOPE, outside=_PNG_OUT, assumptions=_PNG_ASSUME, harnesses=[],
     smt=dict(module="props_c09", K=6, N=24, timeout_ms=1500000),
 )
